@@ -11,12 +11,27 @@ REFCOUNT = ["share", "publish_ref_count", "replay_ref_count", "publish_value_ref
 MAPPER = ["publish_mapper", "multicast_mapper", "replay_mapper", "publish_value_mapper"]
 
 
-class TimedModel(subjects.SeqModel):
-    """Subject model that also stamps deliveries with the model clock."""
+class _Timed:
+    """Mixin: stamps deliveries with the model clock and reports nested subscriptions."""
 
-    def deliver(self, oid, kind, value, optional=False):
+    nested_sub = None  # called when a subscriber subscribes another one from inside a notification
+
+    def apply(self, op, reentrant_from=None):
+        if op[0] == "sub" and reentrant_from is not None and self.nested_sub is not None:
+            self.nested_sub()
+        return super().apply(op, reentrant_from)
+
+    def _log(self, oid, kind, value, optional=False):
         self.tlog.setdefault(oid, []).append((self.now, kind, value, optional))
-        super().deliver(oid, kind, value, optional)
+        super()._log(oid, kind, value, optional)
+
+
+class TimedModel(_Timed, subjects.SeqModel):
+    pass
+
+
+class TimedReplayModel(_Timed, subjects.ReplayModel):
+    """replay forms: deliveries go through the per-subscriber FIFOs (subjects.ReplayModel)"""
 
 
 def subject_kind(form):
@@ -115,7 +130,19 @@ class Prop:
         if form in MANUAL and not any(h[1] == "connect" for h in hist):
             hist.insert(rng.randrange(len(hist) + 1), [95 + 10 * rng.randrange(0, 30), "connect"])
         hist.sort(key=lambda h: h[0])
-        return {"clock": "test", "sources": [{"id": "s0", "kind": kind, "events": ev}], "form": form, "a": a, "ops": hist, "horizon": 1500}
+        sc = {"clock": "test", "sources": [{"id": "s0", "kind": kind, "events": ev}], "form": form, "a": a, "ops": hist, "horizon": 1500}
+        if form in MANUAL + REFCOUNT and rng.random() < 0.25:
+            # a subscriber that, from inside its k-th notification, subscribes one more observer to the same shared observable
+            subs = [h[2] for h in hist if h[1] == "sub"]
+            o = rng.choice(subs)
+            sc["scripts"] = {str(o): {"k": rng.randrange(0, 3), "do": ["sub", 100 + o, True]}}
+            if kind == "cold" and subject_kind(a.get("base", form)) == "replay":
+                # a cold event at relative time 0 would be queued in the scheduler between the replay deliveries of the
+                # connecting subscriber and those of later subscribers of the same instant: keep it off the connection instant
+                for e in ev:
+                    if e[0] == 0:
+                        e[0] = 1
+        return sc
 
     # ------------------------------------------------------------ real
     def build(self, w, sc):
@@ -159,6 +186,12 @@ class Prop:
         for t, name, *rest in sc["ops"]:
             if name == "sub":
                 r = recs[rest[0]] = vt.Recorder(w, "o%d" % rest[0], follow=False)
+                script = (sc.get("scripts") or {}).get(str(rest[0]))
+                if script:
+                    def nested(new=script["do"][1]):
+                        r2 = recs[new] = vt.Recorder(w, "o%d" % new, follow=False)
+                        r2.subscribe(holder["obs"])
+                    r.script = (script["k"], nested)
                 w.at(t, (lambda r=r: r.subscribe(holder["obs"])))
             elif name == "unsub":
                 w.at(t, (lambda o=rest[0]: recs[o].dispose() if o in recs else None))
@@ -178,8 +211,15 @@ class Prop:
         a = sc["a"]
         base = a.get("base", f)
         cfg = {"buffer_size": a.get("buffer_size"), "window": a.get("window"), "initial": a.get("initial")}
-        m = TimedModel(subject_kind(base), cfg, {})
+        m = (TimedReplayModel if subject_kind(base) == "replay" else TimedModel)(subject_kind(base), cfg, sc.get("scripts") or {})
         m.tlog = {}
+        m.auto_drain = False  # replay: queued deliveries run when the scheduler gets its turn, after everything already queued for the instant
+
+        def at(t):
+            if t != m.now and hasattr(m, "flush"):
+                m.flush()
+            m.now = t
+
         refcount = f in REFCOUNT
         timeline = []
         nsubs = 0
@@ -197,6 +237,12 @@ class Prop:
         connected = False
         count = 0
         t_end = None
+
+        def nested_sub():
+            nonlocal count
+            count += 1
+
+        m.nested_sub = nested_sub
 
         def connect(t):
             nonlocal connected, pending
@@ -219,7 +265,7 @@ class Prop:
             nonlocal pending, connected, t_end
             while pending and pending[0][0] <= upto and t_end is None:
                 t, k, v = pending.pop(0)
-                m.now = t
+                at(t)
                 if k == "N":
                     m.apply(["next", v])
                 else:
@@ -233,11 +279,12 @@ class Prop:
             feed(t - 0.5)
             if t_end is not None:
                 break
-            m.now = t
+            at(t)
             if op[0] == "sub":
-                m.apply(["sub", op[1], True])
                 count += 1
-                if refcount and count == 1:
+                first = count == 1  # decided before the subscriber is attached: it may subscribe others from its first notification
+                m.apply(["sub", op[1], True])
+                if refcount and first:
                     connect(t)
             elif op[0] == "unsub":
                 if op[1] in m.logs and op[1] not in m.unsubscribed:
@@ -251,6 +298,8 @@ class Prop:
                 disconnect(t)
         if t_end is None:
             feed(sc["horizon"])
+        if hasattr(m, "flush"):
+            m.flush()
         return m.tlog, intervals, t_end
 
     def model_mapper(self, sc):
@@ -284,6 +333,10 @@ class Prop:
     # ------------------------------------------------------------ check
     def execute(self, sc):
         out = Outcome()
+        named = set(h[2] for h in sc["ops"] if h[1] in ("sub", "unsub"))
+        if any(v["do"][1] in named for v in (sc.get("scripts") or {}).values()):
+            out.digest = ("invalid",)  # (only the shrinker produces this) the nested subscriber must be a new observer
+            return out
         w, recs = self.run_real(sc)
         f = sc["form"]
         src = w.sources["s0"]
@@ -293,7 +346,9 @@ class Prop:
         out.sim_time = sc["horizon"]
         out.nontrivial = any(r.events for r in recs.values()) and len(sc["ops"]) >= 3
         out.probes["form:" + f] += 1
-        desc = "form=%s args=%s source=%s ops=%s" % (f, sc["a"], sc["sources"][0], sc["ops"])
+        if sc.get("scripts"):
+            out.probes["nested_subscribe_script"] += 1
+        desc = "form=%s args=%s source=%s ops=%s%s" % (f, sc["a"], sc["sources"][0], sc["ops"], (" scripts=%s" % sc["scripts"]) if sc.get("scripts") else "")
         for r in recs.values():
             g = vt.grammar_violation(r)
             if g:
@@ -338,7 +393,7 @@ class Prop:
             return out
         sub_time = {op[2]: op[0] for op in sc["ops"] if op[1] == "sub"}
         for oid, r in recs.items():
-            if sub_time.get(oid, 0) >= limit:
+            if sub_time.get(oid, r.sub_t if r.sub_t is not None else 0) >= limit:
                 continue  # subscribed at or after the instant the source terminated
             got = [(t, k, _vk(k, v)) for _, t, k, v in r.events if t <= limit]
             exp = [e for e in want.get(oid, []) if e[0] <= limit]
